@@ -120,7 +120,7 @@ def run(ctx, report: Report) -> None:
     mmod = src.mod('css_match')
 
     # ---- R1 --------------------------------------------------------------------------------------------
-    r1 = report.rule('C04-R1', 'no expression of a bs4 type is mutated or escapes', floor=150)
+    r1 = report.rule('C04-R1', 'no expression of a bs4 type is mutated or escapes', floor=117)
     census = {}
     any_gaps = []
     for mn, mod in src.mods.items():
@@ -254,7 +254,7 @@ def run(ctx, report: Report) -> None:
                 nontrivial=False)
 
     # ---- R2 --------------------------------------------------------------------------------------------
-    r2 = report.rule('C04-R2', 'matcher state is per call', floor=4)
+    r2 = report.rule('C04-R2', 'matcher state is per call', floor=7)
     # decision table of the SoupSieve methods with a recording stand-in for CSSMatch: one fresh matcher per call target,
     # scoped on that target, never shared between the items of an iterable
     from .sem import soupsieve_methods_table
@@ -281,7 +281,7 @@ def run(ctx, report: Report) -> None:
     r2.instance({'functions_reachable_from_matching_api': len(reach)}, key='reach', nontrivial=False)
 
     # ---- R3 --------------------------------------------------------------------------------------------
-    r3 = report.rule('C04-R3', 'memo tables are transparent', floor=6)
+    r3 = report.rule('C04-R3', 'memo tables are transparent', floor=14)
     _, init = src.func('css_match.CSSMatch.__init__')
     memos = {}
     for st in walk_no_nested(init):
@@ -342,7 +342,7 @@ def run(ctx, report: Report) -> None:
         f.rule = 'C04-R3'
 
     # ---- R4 --------------------------------------------------------------------------------------------
-    r4 = report.rule('C04-R4', 'temporary matcher state is restored in the activation that changed it', floor=1)
+    r4 = report.rule('C04-R4', 'temporary matcher state is restored in the activation that changed it', floor=32)
     n_swaps = 0
     for q, fn in mmod.functions.items():
         if not q.startswith('CSSMatch.') or q.endswith('.__init__') or q.count('.') != 1:
